@@ -14,6 +14,12 @@ CHECKS = {
  "C03": dict(level="exploration", technique="property-based testing (Hypothesis): grammar-generated tokenised programs vs reference detokeniser; exhaustive single-token enumeration",
    text="Grammar-generated well-formed programs for all 10 dialect names and LISTO 0-7, file and stdin, compared byte-for-byte with a detokeniser transcribed from doc/bbcbasic.5; every single byte value enumerated per dialect.",
    note="Trusted: the transcribed token tables (cross-checked against the pinned golden token map at start-up) and the LISTO rules of bbcbasic_to_text.1; programs restricted to non-negative loop nesting.", ref="4 C03"),
+ "C08": dict(level="exploration", technique="coverage-guided fuzzing (libFuzzer, ASan+UBSan, oracle in target) + property-based testing of the CLI on ASan/MSan/NDEBUG builds",
+   text="Arbitrary and mutated-valid inputs, every dialect name and no --dialect, valid and invalid LISTO, stdin, several files and unknown options; the tool must return 0/1 without signal, sanitizer report or time-out and print a diagnostic whenever it fails. In-process libFuzzer campaign on decode_file()/wrapped_main() with the same oracle.",
+   note="Trusted: sanitizers' ability to expose memory errors/UB; MSan on the pure-C tool for uninitialised state. Exploration only.", ref="4 C08", engine="E-hyp + E-fuzz"),
+ "C09": dict(level="exploration", technique="property-based testing (Hypothesis): prefix/metamorphic relation on truncations, constructive framing faults, multi-file histories",
+   text="Every proper prefix of small generated programs (sampled cut points for larger ones) must be rejected with a diagnostic and print only a prefix of the intact listing; each listed kind of framing/token fault is built constructively and must be rejected without inventing text; multi-file command lines must equal the concatenation of single-file runs.",
+   note="Trusted: the C03 generator for well-formed programs; the tool's own intact listing is the reference for the prefix relation.", ref="4 C09"),
 }
 
 def main():
@@ -27,6 +33,8 @@ def main():
          "engines": [
             {"name": "E-hyp", "path": "vlib/harness.py", "kind_free_text": "Hypothesis 6.168 driving the real executables as subprocesses, 16 worker processes, reference models in vlib/",
              "serves_properties": sorted(CHECKS)},
+            {"name": "E-fuzz", "path": "vlib/fuzzrun.py", "kind_free_text": "libFuzzer in-process targets under fuzz/ built with clang -fsanitize=fuzzer,address,undefined against the object files of the `fuzz` build variant; 16 independent processes per campaign",
+             "serves_properties": ["C06", "C07", "C08"]},
          ],
          "checks": [], "not_applicable": [],
          "notes": "All checks: ./check <ID> --tier quick|thorough; seed from VERIF_SEED; evidence/<ID>.json rewritten on every run; known_findings.json lists fixed/known defects."}
